@@ -274,6 +274,84 @@ fn interrupts(o: &Opts, rep: &mut Report, only: Option<(bool, bool, usize)>) {
     }
 }
 
+/// (2d) a halted CPU loses no T-state in any speed mode: `DI; <pad>; HALT` entered at a frame clock that is
+/// not a multiple of 4 — the halted M1 cycles are 4 T each and both frame lengths are multiples of 4, so the
+/// offset at every later frame boundary is the entry offset modulo 4 (the overrun of the cycle that crosses
+/// the boundary is carried), whether the host asks for one frame, several frames or maximum speed.
+fn halted_overrun(rep: &mut Report, only: Option<(bool, usize, usize)>) {
+    for m128 in [false, true] {
+        for (pad, entry) in [(0usize, 4usize), (1, 10), (2, 11), (3, 17)] {
+            // mode 0: FrameCount(1) x 6, 1: FrameCount(3) x 2, 2: Max with a stopwatch that times out after 3 frames, x 2
+            for mode in 0..3usize {
+                if let Some((m, p, md)) = only {
+                    if m != m128 || p != pad || md != mode {
+                        continue;
+                    }
+                }
+                let mut e = emu(&Cfg::new(m128));
+                // DI; [INC HL | LD A,n | INC HL, LD A,n]; HALT at 0x8000 — 4, 10, 11, 17 T before the HALT is fetched
+                let code: Vec<u8> = match pad {
+                    0 => vec![0xF3, 0x76],
+                    1 => vec![0xF3, 0x23, 0x76],
+                    2 => vec![0xF3, 0x3E, 0x00, 0x76],
+                    _ => vec![0xF3, 0x23, 0x3E, 0x00, 0x76],
+                };
+                for (i, b) in code.iter().enumerate() {
+                    e.verif_write_mem(0x8000 + i as u16, *b, 0);
+                }
+                {
+                    let cpu = e.verif_cpu();
+                    cpu.regs.set_pc(0x8000);
+                    cpu.regs.set_sp(0x9000);
+                    cpu.regs.set_iff1(false);
+                }
+                e.verif_set_frame_clocks(0);
+                let want = entry % 4;
+                let calls = if mode == 0 { 6 } else { 2 };
+                for call in 0..calls {
+                    match mode {
+                        0 => e.set_speed(EmulationMode::FrameCount(1)),
+                        1 => e.set_speed(EmulationMode::FrameCount(3)),
+                        _ => {
+                            e.set_speed(EmulationMode::Max);
+                            SW_SCRIPT.with(|s| {
+                                let mut s = s.borrow_mut();
+                                s.clear();
+                                s.extend([Duration::ZERO, Duration::ZERO, Duration::from_secs(9)]);
+                            });
+                        }
+                    }
+                    let r = catch(|| e.emulate_frames(Duration::from_secs(1)).map(|_| ()).map_err(|x| format!("{:?}", x)));
+                    SW_SCRIPT.with(|s| s.borrow_mut().clear());
+                    rep.eval();
+                    let fc = e.verif_frame_clocks();
+                    let halted = e.verif_cpu().halted;
+                    rep.class(format!("halted overrun m128={} entry%4={} mode={}", m128, want, mode));
+                    let case = format!("haltrun {} {} {}", if m128 { 128 } else { 48 }, pad, mode);
+                    match r {
+                        Ok(Ok(())) if halted && fc < 4 && fc % 4 == want => {}
+                        other => {
+                            viol(
+                                rep,
+                                Kind::SpecViolated,
+                                &format!("C05/halt/overrun/{}", ["frame-by-frame", "three-frames", "max-speed"][mode]),
+                                format!(
+                                    "DI; …; HALT entered at frame clock {} on the {}: after call #{} in mode {} the frame offset is {} (halted: {}, result {:?}); a halted CPU advances in 4-T cycles, so every frame boundary leaves offset {}",
+                                    entry, if m128 { "128K" } else { "48K" }, call, ["FrameCount(1)", "FrameCount(3)", "Max"][mode], fc, halted, other.map(|x| x.is_ok()), want
+                                ),
+                                case,
+                                format!("{}", fc),
+                                format!("{}", want),
+                            );
+                            break;
+                        }
+                    }
+                }
+            }
+        }
+    }
+}
+
 /// (2c) INT window: CPU with interrupts enabled placed at every frame offset 0..=47
 fn int_window(rep: &mut Report, model: &mut Model, only: Option<(bool, usize)>) {
     for m128 in [false, true] {
@@ -343,6 +421,7 @@ edge, INT level) clock observations + distinct program/slicing/offset cases".int
             Some("ints") => interrupts(o, &mut rep, Some((m128, n(2) == 1, n(3)))),
             Some("window") => int_window(&mut rep, &mut model, Some((m128, n(2)))),
             Some("sys") => crate::sys::replay(o, &mut rep, "C05", text),
+            Some("haltrun") => halted_overrun(&mut rep, Some((m128, n(2), n(3)))),
             _ => {}
         }
         return rep;
@@ -351,6 +430,7 @@ edge, INT level) clock observations + distinct program/slicing/offset cases".int
     conservation(o, &mut rep, None);
     interrupts(o, &mut rep, None);
     int_window(&mut rep, &mut model, None);
+    halted_overrun(&mut rep, None);
     // interrupt-driven programs across a frame start, in lock-step with the Lean machine
     crate::sys::interrupt_programs(o, &mut rep, "C05");
 
